@@ -12,7 +12,8 @@ RULE = ("Cases: 1-10 three-component windows of 200-3000 samples (stationary noi
         "bursts or drop-outs of drawn position, length and gain on drawn components), STA/LTA lengths with sta <= lta <= "
         "window, two pairs of limits (one nested in the other), a component subset in a drawn order, a maximum-value threshold "
         "(normalised or absolute), and optionally an attached HvsrTraditional / HvsrAzimuthal (some windows without a peak) that "
-        "is passed to two successive calls. Non-trivial = the selection is neither empty nor full; distinct by SHA-1 of the case.")
+        "is passed to two successive calls. Non-trivial = the selection is neither empty nor full; distinct by SHA-1 of the case."
+        " In 4 of 9 cases the three components' time steps differ by 1e-9-5e-9 s; STA lengths go down to one sample.")
 ASSUMPTIONS = [
     "STA/LTA chunk lengths: the window is judged under every admissible reading (floor(sta/dt) exact and +-1 sample); only windows that are clearly inside / clearly outside under all readings (margin 1e-6) are asserted",
     "maximum-value decisions closer than 1e-9 (relative) to the threshold are not asserted",
